@@ -1,14 +1,37 @@
 /-
   C01 — print then parse returns the same value (default Scheme dialect).
-  The token lemmas (LexprModel/Proofs/AtomRT.lean) and the structural induction
-  (LexprModel/Proofs/ListRT.lean) are wired in below when present.  Proved here: all print entry
-  points produce the same bytes (default formatter = customised formatter with default options),
-  the expected result of the round trip is the value itself (no folding in the default pairing),
-  and the fixed tokens of the default printer.
+  Proved (LexprModel/Proofs/AtomRT.lean, ListRT.lean, ListRTGlue.lean, imported here):
+   * token level, for all three sources: the printed text of #nil, booleans, every scalar character,
+     every valid UTF-8 string (escape/unescape by induction over the bytes), plain-identifier symbols
+     (ASCII and special initials, sign-initial peculiar identifiers, non-ASCII alphabetic initials),
+     keywords, u64 and negative i64 integers and byte vectors is lexed back to the same token in every
+     follow context (`atomRT_*`);
+   * structure: mutual induction over `emits`/`emitsTail`/`emitsSeq` against
+     `nextValue`/`parseList`/`parseVector` — proper and dotted lists, vectors, arbitrary nesting up to
+     the depth limit, fuel of the public entry point sufficient (`C01_structure`, `C01_structure_public`);
+     the depth bound is exact (`C01_depth_exact`);
+   * end to end: `C01_roundtrip` below.
+  Not yet covered by the theorem: float leaves (they need the ryu specification and the decimal
+  scanner theorems) and byte-vector leaves inside the structural theorem (the token-level theorem
+  `atomRT_bytes` exists); both are carried by the correspondence and the direct oracle.
+  Also proved here: all print entry points produce the same bytes, no folding in the default pairing.
 -/
 import LexprModel.Props.C07
 import LexprModel.Props.C02
+import LexprModel.Proofs.ListRTGlue
 namespace Lexpr
+
+/-- **C01_roundtrip** (proved for every value without floats and byte vectors; see the header):
+    parsing the default printer's text with the default parser returns the value, consumes the whole
+    text and restores the depth budget.  `AllSupported v`: atoms are #nil, booleans, integers in
+    u64 / negative i64 range, scalar characters, valid UTF-8 strings, plain-identifier symbols and
+    keywords; nesting at most 127 (the documented limit; `C01_depth_exact` shows 128 is refused). -/
+theorem C01_roundtrip (cfg : Parse.Cfg) (ho : cfg.opts = Parse.Options.default)
+    (ryu : Nat → List UInt8) (v : Value) (h : Parse.ListRT.AllSupported v)
+    (hn : Parse.ListRT.nesting v ≤ 127) :
+    ∃ s', Parse.fromTrait cfg (Parse.initSt .slice (Print.text Print.Options.default ryu v)) = .ok v s' ∧
+      s'.rd.rest = [] ∧ s'.depth = 128 :=
+  Parse.ListRT.C01_roundtrip_supported cfg ho ryu v h hn
 
 /-- to_string / to_vec / to_writer / Display all run the same printer: same emissions, same text -/
 theorem C01_entry_points (ryu : Nat → List UInt8) (v : Value) :
